@@ -87,7 +87,7 @@ def run(ctx):
         fs = F.facts_at(rn)
         isnull = any(op == '==' and set((a, b)) == set(('this.impl_', 'null')) for (op, a, b) in fs)
         notnull = any(op == '!=' and set((a, b)) == set(('this.impl_', 'null')) for (op, a, b) in fs)
-        rk = F.keys.key(kids(rn.ast)[0]) if kids(rn.ast) else ''
+        rk = F.ident_key(kids(rn.ast)[0]) if kids(rn.ast) else ''
         if isnull:
             good = 'cctz::time_zone::Impl::UTC()' in rk
             ctx.check(good, 'C19-null', 'effective_impl(): null -> UTC singleton', rn.ast,
@@ -103,7 +103,7 @@ def run(ctx):
     uu, ff = ctx.fn('cctz::time_zone::Impl::UTC')
     rets = [x for x in walk(ff) if x.get('kind') == 'ReturnStmt']
     good = len(rets) == 1 and any(x.get('kind') == 'CallExpr' and callee(x) and callee(x)[0] == 'fn' and
-                                  loader._returns_singleton(ctx, callee(x)[1]) for x in walk(rets[0]))
+                                  loader._returns_singleton(ctx, callee(x)[1]) for x in ctx.facts(ff).walk_ident(rets[0]))
     ctx.check(good, 'C19-null', 'Impl::UTC() wraps the UTC singleton', ff,
               'Impl::UTC() does not return the process-wide UTC Impl', construct='impl-utc')
     eq = [k for k in G.find('cctz::operator==') if len(k[1]) == 2 and 'time_zone' in k[1][0]]
